@@ -73,6 +73,12 @@ func (e *areaExpression) testObject(
 	exprObjTest func(ae *areaExpression, ob geojson.Object) bool,
 ) bool {
 	if e.obj != nil {
+		if e.obj.Empty() {
+			// An empty geometry is never within, containing or intersecting
+			// anything. The spatial index does not hold empty geometries, so
+			// the index-free test must not report them either.
+			return false
+		}
 		return objObjTest(e.obj, o)
 	}
 	switch e.op {
